@@ -2,7 +2,7 @@
    This file only states theorems; proofs live in SV.C17Proofs / ViewFS / ViewTrie / ViewThm / ViewThm2 /
    C17Witness.  The model is SV.View (create_linked_view and all helpers of signac/linked_view.py, the
    leaf/node check of import_export.py as written); the job -> path map is an input of the model. *)
-From SV Require Import Base View CorrC17 C17Proofs ViewFS ViewTrie ViewThm ViewThm2 C17Witness.
+From SV Require Import Base View CorrC17 C17Proofs ViewFS ViewTrie ViewThm ViewThm2 ViewThm3 ViewResolve ViewThm4 C17Witness.
 
 (* ---------------------------------------------------------------- rejected inputs *)
 (* view_reject_unchanged: whatever the guards reject (separator in a top level key/value, a failing
@@ -91,9 +91,53 @@ Theorem C17_make_link_step : forall P, P <> [] -> Forall plain P ->
 Proof. exact link_step. Qed.
 Print Assumptions C17_make_link_step.
 
+(* ---------------------------------------------------------------- no dangling link *)
+(* the link T/job with the relative target the code computes resolves (os.path.realpath in the model
+   tree) to the job directory, whenever that directory exists; for every cwd *)
+Theorem C17_view_links_resolve : forall P T tgt w cwd,
+  P <> [] -> Forall plain (P ++ T) -> Forall real (P ++ T) ->
+  Forall plain tgt -> Forall nosep tgt -> dirs_to w tgt -> dirs_to w (P ++ T) ->
+  Forall tok T ->
+  get w ((P ++ T) ++ [s_job]) = Some (Lnk (link_target cwd (A P) (T ++ [s_job]) tgt)) ->
+  realpath w cwd (pjoin (A P) (T ++ [s_job])) = tgt.
+Proof. exact link_target_resolves. Qed.
+Print Assumptions C17_view_links_resolve.
+
 (* ---------------------------------------------------------------- running twice *)
-(* Full statement wanted: the second run performs zero operations.  FALSE for a view whose link sits
-   at the root of the prefix (one selected job): the scan yields "./job", the key is "job". *)
+(* the scan of an existing plain view finds exactly the directories of its links *)
+Theorem C17_scan_exact : forall P, P <> [] -> Forall plain P ->
+  forall w cwd cur,
+  Inv P w true cur -> nwf w -> (forall e, In e cur -> fst e <> []) ->
+  forall d, In d (find_all_links w cwd (A P)) <-> In d (map fst cur).
+Proof. exact scan_of_inv. Qed.
+Print Assumptions C17_scan_exact.
+
+(* view_idempotent, PARTIAL.  Full statement wanted: for every view the second run performs zero
+   operations.  Proved: for every tree (one entry per name) whose prefix holds exactly the view of a
+   plain specification WITHOUT a link at the root of the prefix (i.e. at least one distinguishing token
+   per job) and whose links resolve to the job directories, _update_view returns the state unchanged —
+   same tree, same operation counter — for every hint and cwd.  Missing: the root-level link, where the
+   statement is false (next theorem). *)
+Theorem C17_view_idempotent_partial : forall P (sp : spec) hint w n cwd,
+  P <> [] -> Forall plain P -> good_spec sp -> no_root sp -> nwf w ->
+  Inv P w true (map (placed P cwd) sp) ->
+  (forall e, In e sp -> realpath w cwd (pjoin (A P) (key_of e)) = snd e) ->
+  update_view hint (w, n) cwd (A P) (lk_of sp) = ok (w, n).
+Proof. exact second_run_noop. Qed.
+Print Assumptions C17_view_idempotent_partial.
+
+(* ... and the hypotheses are what a fresh build establishes: build from scratch, run again = no-op.
+   ([nwf w'] — one entry per name in the tree the first run produced — is kept as a hypothesis; it is
+   not proved to be preserved by the model's tree update.) *)
+Theorem C17_view_fresh_then_noop : forall P (sp : spec) hint hint2 w n cwd w' n',
+  P <> [] -> Forall plain P -> Forall real P -> good_spec sp -> no_root sp ->
+  (forall e, In e sp -> Forall real (fst e)) -> good_targets P w sp ->
+  dirs_to w (removelast P) -> get w P = None ->
+  update_view hint (w, n) cwd (A P) (lk_of sp) = ok (w', n') -> nwf w' ->
+  update_view hint2 (w', n') cwd (A P) (lk_of sp) = ok (w', n').
+Proof. exact scratch_then_second_run_noop. Qed.
+Print Assumptions C17_view_fresh_then_noop.
+
 Theorem C17_view_idempotent_refuted :
   let c := mkcall [mkjob s_j1 []] in
   let '(r1, (w1, n1)) := run [] world0 c in
